@@ -10,7 +10,7 @@ path of add(); (R4) per-species formulas N=A-Z, e=Z+charge, mass=isotope mass+ch
 abundance-weighted natural mean, arg-max of abundance with aligned key order, suffix ladder;
 (R5) every m.group(k) refers to an existing group of its pattern; (R6) species objects are built
 fresh per parse (no shared mutable class-level state). NOT decided: the regex rewriting for
-arbitrary nesting/spacing, isotope data, totals (composition of R3/R4)."""
+arbitrary nesting/spacing, isotope data, totals (composition of R3/R4). (R7) every species text the element reader accepts is one token of the formula rewriter (exhaustive over suffixes); results of + and * share no component object with an operand; no module-level mutable state."""
 import ast
 
 from ..literal import Evaluator, NotLiteral
